@@ -519,6 +519,72 @@ def run_joins(unit, ctx):
             "counters": {"states": ev, "transitions": ev * 4, "traces_validated_against_impl": ev, "join_cases": ev}}
 
 
+# ---- many documents through one resolver -------------------------------------------------------------------
+MANY_N = 300
+MANY_BASE = "http://h.invalid/many/"
+
+
+def many_world(d, cache_remote=True):
+    """(validator, fetch counter, supplied-store key): a schema referring to MANY_N handler-served documents, one
+    supplied store document, the bundled metaschema and a local definition."""
+    cls = _e1.CLS[d]
+    props = dict(("p%d" % i, {"$ref": "%s%d.json#/d" % (MANY_BASE, i)}) for i in range(MANY_N))
+    props.update(dict(("q%d" % i, {"$ref": "%s%d.json#/e" % (MANY_BASE, i)}) for i in (0, 1, 2, 150)))
+    props["s"] = {"$ref": MANY_BASE + "supplied.json#/t"}
+    props["m"] = {"$ref": META[d] + "#"}
+    props["l"] = {"$ref": "#/definitions/loc"}
+    S = {"definitions": {"loc": {"type": "boolean"}}, "properties": props}
+    counts = collections.Counter()
+
+    def handler(uri):
+        counts[norm(uri)] += 1
+        return {"d": {"type": "integer"}, "e": {"type": "string"}}
+    r = RefResolver.from_schema(S, id_of=cls.ID_OF, store={MANY_BASE + "supplied.json": {"t": {"type": "null"}}},
+                                handlers={"http": handler}, cache_remote=cache_remote)
+    return cls(S, resolver=r), counts, S
+
+
+def many_problems(d):
+    """None or (kind, detail).  The big instance touches every document once; the small ones come afterwards."""
+    v, counts, S = many_world(d)
+    big = dict(("p%d" % i, "x" if i % 50 == 0 else i) for i in range(MANY_N))
+    small = [{"q0": 1, "q1": "s", "q150": 2}, {"s": 1, "l": 1, "m": {"type": 12}}, {"p0": "x", "p299": "y", "q2": 0}]
+
+    def errs(val, x):
+        try:
+            return sorted((e.validator, e.message, tuple(e.absolute_path)) for e in val.iter_errors(x))
+        except exceptions.RefResolutionError as e:
+            return "RefResolutionError"
+        except Exception as e:
+            return "EXC " + type(e).__name__
+    first = errs(v, big)
+    again = errs(v, big)
+    if first != again:
+        return ("big-instance-differs-when-repeated", {"first": str(first)[:200], "again": str(again)[:200]})
+    for x in small:
+        got = errs(v, x)
+        fresh_v, _, _ = many_world(d)
+        want = errs(fresh_v, x)
+        if got != want:
+            return ("differs-from-a-new-validator-after-%d-documents" % MANY_N, {"instance": x, "got": str(got)[:300], "fresh": str(want)[:300]})
+    over = dict((u, c) for u, c in counts.items() if c > 1)
+    if over:
+        return ("documents-fetched-more-than-once", {"how_many": len(over), "example": sorted(over.items())[:2]})
+    if len(counts) != MANY_N:
+        return ("unexpected-number-of-retrievals", {"distinct": len(counts)})
+    if v.resolver.resolution_scope != "":
+        return ("scope-not-restored", {"scope": v.resolver.resolution_scope})
+    # caching off: verdicts identical, the store gains nothing
+    v2, counts2, _ = many_world(d, cache_remote=False)
+    keys0 = set(v2.resolver.store)
+    for x in small:
+        if errs(v2, x) != errs(many_world(d)[0], x):
+            return ("caching-off-differs", {"instance": x})
+    if set(v2.resolver.store) != keys0:
+        return ("store-gained-entries-with-caching-off", {"gained": len(set(v2.resolver.store) - keys0)})
+    return None
+
+
 def plan(ctx):
     _load_meta()
     drafts = (4, 7) if ctx.tier == "quick" else _e1.DRAFTS
@@ -531,10 +597,14 @@ def plan(ctx):
             units += [(d, ci, i) for i in range(len(m.all_ops))]
     for d in _e1.DRAFTS:
         units += [(d, "joins", i, 6) for i in range(6)]
+        units.append((d, "many", 0, 1))
     D0, D1, dev = depths(ctx)
     return {
         "units": units,
-        "rule": ("JOINS: 15 base URIs (none, urn:, tag:, mem://, opaque, file:, mailto:, upper-case, query, directory, "
+        "rule": ("MANY DOCUMENTS: one resolver retrieves 300 distinct documents in one validation, then small instances "
+                 "reach early documents under another fragment, a supplied store document, the metaschema and a local "
+                 "definition: results as for a new validator, every document fetched once, nothing gained with "
+                 "caching off.  JOINS: 15 base URIs (none, urn:, tag:, mem://, opaque, file:, mailto:, upper-case, query, directory, "
                  "scheme-relative, relative, dot segments) x 13 reference spellings x 6 subschema ids x 4 drafts, every "
                  "URL served by a handler with a document that names its URL; each validated twice on two instances "
                  "under 10 cache configurations (cache_remote on/off x default / pass-through / lru_cache(1) / "
@@ -559,6 +629,24 @@ def run_unit(unit, ctx):
     _load_meta()
     if unit[1] == "joins":
         return run_joins(unit, ctx)
+    if unit[1] == "many":
+        NET.install()
+        try:
+            p = many_problems(unit[0])
+            calls = list(NET.calls)
+            del NET.calls[:]
+        finally:
+            NET.uninstall()
+        viol = []
+        if p is not None:
+            viol.append({"signature": "C15|many-documents|" + p[0], "size": MANY_N,
+                         "case": {"kind": "many", "draft": unit[0]}, "detail": p[1]})
+        if calls:
+            viol.append({"signature": "C15|network-touched|many-documents", "size": MANY_N,
+                         "case": {"kind": "many", "draft": unit[0]}, "detail": {"calls": calls[:3]}})
+        return {"evaluations": MANY_N + 10, "nontrivial": MANY_N + 10, "violations": viol, "samples": [],
+                "outcomes": {"many-documents:" + ("ok" if p is None else p[0]): 1},
+                "counters": {"states": 8, "transitions": 8, "traces_validated_against_impl": 8, "documents_through_one_resolver": MANY_N}}
     d, ci, first = unit
     m = get_model(d, ci)
     D0, D1, dev = depths(ctx)
@@ -586,6 +674,13 @@ def run_unit(unit, ctx):
 
 def replay(case, ctx):
     _load_meta()
+    if case.get("kind") == "many":
+        NET.install()
+        try:
+            p = many_problems(case["draft"])
+        finally:
+            NET.uninstall()
+        return {"reproduced": p is not None, "problem": p}
     if case.get("kind") == "joins":
         NET.install()
         try:
